@@ -55,7 +55,7 @@ OP_WEIGHTS = {
     "add": 4, "sub": 3, "restep": 3, "reversed": 4, "copy": 3, "from_ends": 5, "pow": 3, "resolve": 4,
     "distance": 3, "index": 4, "slice": 4, "contains": 2, "eq": 2, "encompassing": 2, "from_until": 2,
     "p_arith": 5, "p_compare": 4, "p_hash": 3, "p_calendar": 5, "p_keyword": 4, "p_mix": 3, "p_span_ops": 2,
-    "resolve_mix": 2, "p_derive": 4, "p_convert": 4, "span_strings": 2,
+    "resolve_mix": 2, "p_derive": 4, "p_convert": 4, "span_strings": 2, "iter_open": 2, "iter_next": 4,
 }
 MUTATING = {"reverse", "shift", "shift_start", "shift_end"}
 MAX_SPAN = 400      # periods; longer spans only make the per-step full comparison slow
@@ -140,6 +140,7 @@ class DatesWorld(World):
         self.periods = {}   # handle -> (real, (f, serial))
         self.owner = {}
         self.snaps = {}
+        self.iters = {}     # handle -> in-flight iteration over a live span (an operation that has begun and not ended)
         self.counter = 0
 
     # -- bookkeeping ------------------------------------------------------------------------------
@@ -158,6 +159,8 @@ class DatesWorld(World):
         for h in self.step_handles(step):
             if h not in outs and h not in self.spans and h not in self.periods:
                 return False
+        if step["op"] == "iter_next" and step["args"]["it"] not in self.iters:
+            return False
         return True
 
     def retire(self, handles):
@@ -166,6 +169,14 @@ class DatesWorld(World):
             self.periods.pop(h, None)
             self.snaps.pop(h, None)
             self.owner.pop(h, None)
+            self.iters.pop(h, None)
+        for it in [i for i, info in self.iters.items() if info["span"] not in self.spans]:
+            self.iters.pop(it, None)
+
+    def finish(self):
+        # iterations still in flight at the end of the run are completed and judged
+        for it in sorted(self.iters):
+            self._iter_pull(it, 10 ** 6, "finish.iter_next")
 
     def fingerprint(self):
         return sha1(canon({"s": {h: m.dump() for h, (_, m) in sorted(self.spans.items())},
@@ -296,9 +307,11 @@ class DatesWorld(World):
         r = rng.random()
         ctor = "Span"
         if rng.random() < self.cfg["p_contextual"]:
-            ctor = rng.choice(["open_start", "open_end", "open_both"])
+            ctor = rng.choice(["open_start", "open_end", "open_both", "op_open_start", "op_open_end"])
         elif step == 1 and r < 0.3:
             ctor = "rshift"
+        elif step == -1 and r < 0.5:
+            ctor = "lshift"
         elif f in cal.REGULAR and step == 1 and r < 0.5:
             ctor = "ellipsis"
         return {"op": "new_span", "out": [self._name("s")], "args": {"f": f, "a": a, "b": b, "step": step, "ctor": ctor}}
@@ -409,6 +422,19 @@ class DatesWorld(World):
         # `period - span` is not exercised: Period.__sub__ never defers to Span.__rsub__ (TypeError), and C09 does not
         # speak about it
         return {"op": "distance", "args": {"s": s, "p": p, "r": False}}
+
+    def _gen_iter_open(self, actor, rng):
+        if len(self.iters) >= 2:
+            return None
+        s = self._pick_span(rng, actor, lambda m: not m.contextual)
+        if s is None:
+            return None
+        return {"op": "iter_open", "out": [self._name("it")], "args": {"s": s, "how": "iter", "first": rng.choice([0, 1, 2])}}
+
+    def _gen_iter_next(self, actor, rng):
+        if not self.iters:
+            return None
+        return {"op": "iter_next", "args": {"it": rng.choice(sorted(self.iters)), "k": rng.choice([1, 1, 2, 3, 1000])}}
 
     def _gen_span_strings(self, actor, rng):
         s = self._pick_span(rng, actor, lambda m: not m.contextual and m.f != "I")
@@ -682,6 +708,19 @@ class DatesWorld(World):
             else:
                 thunk = lambda: fn(ya, ga + 1, ..., yb, gb + 1)
             m = SpanM(f, sa, sb, 1)
+        elif ctor == "lshift":
+            # documented: end_per << start_per is Span(end_per, start_per, step=-1)
+            thunk = lambda: pa << pb
+            m = SpanM(f, sa, sb, -1)
+        elif ctor == "op_open_start":
+            # the operator forms of the open-ended spans: None >> p is Span(None, p, 1), None << p is Span(None, p, -1)
+            d = 1 if st > 0 else -1
+            thunk = (lambda: None >> pb) if d > 0 else (lambda: None << pb)
+            m = SpanM(f, ("ctx", "start_date" if d > 0 else "end_date", 0), sb, d)
+        elif ctor == "op_open_end":
+            d = 1 if st > 0 else -1
+            thunk = (lambda: pa >> None) if d > 0 else (lambda: pa << None)
+            m = SpanM(f, sa, ("ctx", "end_date" if d > 0 else "start_date", 0), d)
         elif ctor == "open_start":
             thunk = lambda: ir.Span(None, pb, st)
             m = SpanM(f, ("ctx", "start_date" if st > 0 else "end_date", 0), sb, st)
@@ -710,6 +749,8 @@ class DatesWorld(World):
             self.probes["contextual_span_mutated_before_resolve"] += 1
         self._guard(name, pred, lambda: call(real))
         apply_model(m)
+        if self.iters:
+            self._iter_note_mutation(h)
         if name == "shift_start" and not m.contextual and len(m.rng()) == 0:
             self.probes["span_emptied_by_shift_start"] += 1
         self._after(name, pred, recv=h)
@@ -893,6 +934,72 @@ class DatesWorld(World):
                             f"distances of the span's periods from the period are {want}, got {got} (span has {len(r)} periods)")
         self._after(name, "")
         return "ok"
+
+    # -- iteration as an operation with a beginning and an end --------------------------------------
+    # An iterator over a span is an operation in flight: other steps (in-place mutations of the same span included) run
+    # between its first and its last `next`.  What it yields must be the enumeration of the span in ONE of the states the
+    # span had while the iteration was alive (the linearizability reading of "iteration agrees with the span"): a mix of
+    # two states - periods skipped or repeated, an IndexError half way - agrees with none.
+    def _do_iter_open(self, step, a):
+        real, m = self.spans[a["s"]]
+        how = a.get("how", "iter")
+        if how == "reversed_builtin":
+            # not generated: Span has no __reversed__, so the builtin walks it through the sequence protocol, reading the
+            # live span at every step exactly as it does for a list - that is Python's contract, not the library's
+            it = self._guard("iter_open.reversed", "", lambda: iter(reversed(real)))
+            states = [list(reversed(m.rng()))]
+        else:
+            it = self._guard("iter_open", "", lambda: iter(real))
+            states = [list(m.rng())]
+        h = step["out"][0]
+        self.iters[h] = {"it": it, "span": a["s"], "states": states, "got": [], "reversed": how == "reversed_builtin"}
+        self.probes["iteration_opened"] += 1
+        if a.get("first"):
+            self._iter_pull(h, a["first"], "iter_open")
+        self._after("iter_open", "")
+        return "ok"
+
+    def _do_iter_next(self, step, a):
+        self._iter_pull(a["it"], a["k"], "iter_next")
+        self._after("iter_next", "")
+        return "ok"
+
+    def _iter_note_mutation(self, h):
+        """Span h was mutated in place: every iteration in flight over it may from now on reflect the new state too."""
+        real, m = self.spans[h]
+        for info in self.iters.values():
+            if info["span"] == h and not m.contextual:
+                r = list(m.rng())
+                info["states"].append(list(reversed(r)) if info["reversed"] else r)
+                self.probes["span_mutated_under_live_iteration"] += 1
+
+    def _iter_pull(self, h, k, opname):
+        info = self.iters[h]
+        done = False
+        for _ in range(k):
+            try:
+                p = next(info["it"])
+            except StopIteration:
+                done = True
+                break
+            except Exception as e:
+                strip_traceback(e)
+                self.iters.pop(h, None)
+                raise Violation("crash", opname, "mutated" if len(info["states"]) > 1 else "", type(e).__name__,
+                                f"an iteration in flight raised {type(e).__name__}: {str(e)[:120]} after yielding {len(info['got'])} periods")
+            info["got"].append(int(p.serial))
+        got = info["got"]
+        pred = "mutated" if len(info["states"]) > 1 else ""
+        if done:
+            self.iters.pop(h, None)
+            if not any(got == st for st in info["states"]):
+                raise Violation("refine", opname, pred, "", f"a completed iteration yielded serials {got[:8]}{'...' if len(got) > 8 else ''} ({len(got)} periods); "
+                                f"the span enumerated {[st[:4] for st in info['states'][:3]]} in the states it had meanwhile")
+            if len(info["states"]) > 1:
+                self.probes["iteration_completed_across_mutation"] += 1
+        elif not any(got == st[:len(got)] for st in info["states"]):
+            self.iters.pop(h, None)
+            raise Violation("refine", opname, pred, "", f"an iteration in flight has yielded serials {got[:8]}, a prefix of none of the states {[st[:4] for st in info['states'][:3]]} the span had meanwhile")
 
     def _do_span_strings(self, step, a):
         """The span-level string/date converters enumerate exactly the span, and reading the strings back gives its periods."""
